@@ -153,6 +153,11 @@ class BlockChain(object):
         def iterate() -> Generator[tuple[Any, Any], None, None]:
             for header in header_iter:
                 h = header.hash()
+                if self.hash_to_index_lookup.get(h, len(self._locked_chain)) < len(
+                    self._locked_chain
+                ):
+                    # a duplicate of a locked header: already part of the chain for good
+                    continue
                 self.weight_lookup[h] = header.difficulty
                 self.unlocked_block_storage[h] = header
                 yield h, header.previous_block_hash
